@@ -185,6 +185,9 @@ NEUTRAL = {
     "n-c20-keep-floordiv": ("pulsarbat/contrib/misc.py", "z = z[: len(z) - len(z) % nperseg, :]",
                             "z = z[: len(z) // nperseg * nperseg, :]", ["C20"]),
     "n-c10-centre-halves": ("pulsarbat/transforms/transforms.py", 'kw["center_freq"] = (f0 + f1) / 2', 'kw["center_freq"] = f0 / 2 + f1 / 2', ["C10"]),
+    "n-c03-branches-swapped": ("pulsarbat/transforms/transforms.py",
+                               "        if a < 0:\n            a = int(np.floor(a))\n            ix = (np.s_[a:],) + it.multi_index\n            stop = min(stop, a)\n        else:\n            a = int(np.ceil(a))\n            ix = (np.s_[:a],) + it.multi_index\n            start = max(start, a)\n",
+                               "        if a >= 0:\n            a = int(np.ceil(a))\n            ix = (np.s_[:a],) + it.multi_index\n            start = max(start, a)\n        else:\n            a = int(np.floor(a))\n            ix = (np.s_[a:],) + it.multi_index\n            stop = min(stop, a)\n", ["C03"]),
     "n-dt-mul": ("pulsarbat/core.py", "self.start_time + s.start / self.sample_rate",
                  "self.start_time + s.start * (1 / self.sample_rate)", ["C01"]),
     "n-guess-1.5N": ("pulsarbat/utils.py", "    f7, guess = 1, 2 * N\n", "    f7, guess = 1, N + N // 2 + 1\n", ["C18"]),
